@@ -1038,9 +1038,10 @@ def gen_c09(rng: random.Random, sid: str, thorough: bool = False) -> dict:
         if ttl == 1 and x < 0:
             when = r - rng.choice([1001, 2500, 9000])       # expired (perhaps unpurged) by the time it matters
         evs.append((max(0, when), {'op': 'conflict', 'svc': sp, 'k': k, 'exact': is_exact, 'ttl': ttl}))
-        if is_exact:
-            exact.append(k)
-        detected = is_exact and x <= 349 and not (ttl == 1 and x < 0) and ttl != 1
+        # (`exact` in the steps: the conflicting name is spelled as proposed, or with the case of its letters swapped -- the same
+        # name either way; `exact` in the api event: the candidates that are taken)
+        exact.append(k)
+        detected = x <= 349 and not (ttl == 1 and x < 0) and ttl != 1
         if not (detected and rename):
             break
         r = max(r, when) if x >= 0 else r
